@@ -568,8 +568,8 @@ impl<'c> Interp<'c> {
         let info = orig.x_info();
         let before = guard_api.x_stats();
         let route = Route::ALL[r.b(1) as usize % 9];
-        let mut sel = r.b(0) % 12;
-        if !info.full && matches!(sel, 3 | 4 | 5 | 9) {
+        let mut sel = r.b(0) % 14;
+        if !info.full && matches!(sel, 3 | 4 | 5 | 9 | 12 | 13) {
             sel = sel % 2; // lite cell: only the non-generic entry points are instantiated
         }
         let align = self.align_from(r);
@@ -625,6 +625,26 @@ impl<'c> Interp<'c> {
                     Outcome::Ok(_) => {}
                     Outcome::Err => self.fail("C14/zst-exempt", format!("{what}: alloc(()) failed")),
                     Outcome::Panic(m) => self.fail("C14/zst-exempt", format!("{what}: alloc(()) panicked: {m}")),
+                }
+            }
+            12 | 13 => {
+                // the scope-level helpers (through the route's scope object: trait objects for the dyn routes)
+                let try_ = sel == 12;
+                let n = 1 + size % 40;
+                let req = match r.b(5) % 5 {
+                    0 => BoxReq::SliceCopy(Elem::U8, n),
+                    1 => BoxReq::Str(n),
+                    2 => BoxReq::Alloc(Elem::U32),
+                    3 => BoxReq::SliceFill(Elem::U32, n),
+                    _ => BoxReq::Fmt(n),
+                };
+                what = format!("[claimed original] helper {req:?} try={try_} via {route:?}");
+                self.note(|| format!("(about to) {what}"));
+                match (try_, guard(|| orig.x_boxed(route, req, 1, try_))) {
+                    (true, Outcome::Err) | (false, Outcome::Panic(_)) => {}
+                    (true, Outcome::Panic(m)) => self.fail("C14/request-fails", format!("{what}: a try_ method panicked: {m}")),
+                    (false, Outcome::Err) => {}
+                    (_, Outcome::Ok(_)) => self.fail("C14/request-fails", format!("{what}: succeeded")),
                 }
             }
             6 => {
